@@ -13,6 +13,7 @@ pub mod c15;
 pub mod c16;
 pub mod c17;
 pub mod c18;
+pub mod c19;
 #[cfg(rustls_rcgen_verif)]
 pub mod c20;
 pub mod certfam;
@@ -35,6 +36,7 @@ pub fn run(prop: &str, tier: &str, replay: Option<&str>) -> i32 {
         "C16" => c16::run(prop, tier, replay),
         "C17" => c17::run(prop, tier, replay),
         "C18" => c18::run(prop, tier, replay),
+        "C19" => c19::run(prop, tier, replay),
         #[cfg(rustls_rcgen_verif)]
         "C20" => c20::run(prop, tier, replay),
         _ => {
